@@ -93,6 +93,15 @@ class UnusedTranslator:
                     self._add_usage(elem.condition)
             if stm.ast_type in (ASTType.External, ASTType.Heuristic, ASTType.ProjectAtom):
                 self._add_usage_stm(stm.atom)  # the directive observes its own atom with all its arguments
+            if stm.ast_type == ASTType.Rule:
+                # an argument that may have no value at all (empty interval, undefined arithmetic) or several
+                # (pool, interval) decides how many head atoms exist: such a position cannot be dropped
+                for atom in collect_ast(stm.head, "SymbolicAtom"):
+                    if atom.symbol.ast_type == ASTType.Function:
+                        pred = Predicate(atom.symbol.name, len(atom.symbol.arguments))
+                        for index, arg in enumerate(atom.symbol.arguments):
+                            if arg.ast_type in (ASTType.Interval, ASTType.Pool, ASTType.BinaryOperation, ASTType.UnaryOperation):
+                                self.used_positions[pred].add(index)
             if stm.ast_type == ASTType.Rule and stm.head.ast_type == ASTType.Literal and stm.head.sign != Sign.NoSign:
                 self._add_usage_stm(stm.head)  # "not a :- body." is a constraint on a
             if stm.ast_type == ASTType.Rule and stm.head.ast_type == ASTType.HeadAggregate:
